@@ -533,7 +533,7 @@ fn advance(c: &mut Chain, cx: &mut Ctx, target: i64, dense: bool) {
     let mut guard = 0;
     while c.epoch() < target && !cx.stop {
         guard += 1;
-        if guard > 20000 { break; }
+        if guard > 400000 { break; }
         let e = c.epoch();
         let pv = c.power_view();
         let next_ev = pv.next_event_epoch.unwrap_or(i64::MAX);
@@ -552,6 +552,53 @@ fn advance(c: &mut Chain, cx: &mut Ctx, target: i64, dense: bool) {
 
 fn fil(n: i64) -> TokenAmount { TokenAmount::from_whole(n) }
 
+const LONG_FAULT_SEQ: u64 = 1_000_000;
+
+/// Scripted history: a miner proves two sectors once and then never submits a PoSt again; the
+/// sectors stay faulty for the whole `fault_max_age` (42 proving periods) with the cron running,
+/// are then terminated by the fault time-out, and the early terminations must be processed (fee
+/// charged, pledge released, queues empty).  The monitors run on every tick as usual.
+fn long_fault_script(c: &mut Chain, cx: &mut Ctx, pending: &mut Vec<Vec<(u64, i64)>>) {
+    let mi = 0usize;
+    // one more sector next to the one pre-committed at creation
+    let e0 = c.epoch();
+    record_balances(c);
+    let mut out = None;
+    let res = exec(c, cx, format!("precommit miner={} n=1", mi), false, false, |c| { let (a, b) = c.precommit(mi, 1, 0); out = Some(b); a });
+    if res.ok() { for s in out.unwrap() { pending[mi].push((s, e0)); } }
+    let target = e0 + c.policy.pre_commit_challenge_delay + 2;
+    advance(c, cx, target, false);
+    let secs: Vec<u64> = pending[mi].iter().map(|p| p.0).collect();
+    record_balances(c);
+    exec(c, cx, format!("prove_commit miner={} sectors={:?}", mi, secs), false, false, |c| c.prove_commit(mi, &secs));
+    // prove them once: advance to the deadline that holds them and submit a PoSt
+    for _ in 0..60 {
+        if cx.stop { return; }
+        let view = c.miner_view(&c.miners[mi].id);
+        let dl = c.dline_info(mi);
+        let parts: Vec<_> = view.parts.iter().filter(|p| p.0 == dl.index && !p.2.is_empty()).cloned().collect();
+        if !parts.is_empty() && dl.is_open() {
+            let plist: Vec<(u64, Vec<u64>)> = parts.iter().map(|p| (p.1, vec![])).collect();
+            record_balances(c);
+            exec(c, cx, format!("post miner={} deadline={} parts={:?} invalid=false", mi, dl.index, plist), false, false, |c| c.submit_post(mi, dl.index, dl.challenge, plist.clone(), false));
+            break;
+        }
+        let t = dl.close.max(c.epoch() + 1);
+        advance(c, cx, t, false);
+    }
+    // ... and never again: run the chain through fault_max_age plus two proving periods
+    let end = c.epoch() + c.policy.fault_max_age + 3 * c.policy.wpost_proving_period;
+    cx.lines.push(format!("# no further PoSt; advancing to {}", end));
+    advance(c, cx, end, false);
+    let v = c.miner_view(&c.miners[mi].id);
+    let endl = format!("long-fault scenario end: live={} faulty={} early_pending={} ip={} debt={} burnt_total={}", v.n_live, v.n_faulty, v.n_early_pending, v.ip.atto(), v.debt.atto(), c.w.balance(&BURNT_FUNDS_ACTOR_ADDR).atto());
+    cx.lines.push(format!("# {}", endl));
+    cx.rep.notes.push(endl);
+    if v.n_live > 0 && !cx.stop {
+        cx.violation(Which::C05, "fault-timeout-not-processed", format!("{} sectors still live {} epochs after they stopped being proven (fault_max_age {})", v.n_live, c.policy.fault_max_age + 3 * c.policy.wpost_proving_period, c.policy.fault_max_age));
+    }
+}
+
 pub fn run(cfg: &RunCfg, which: Which) -> Report {
     let mut rep = Report::new(which.id(), cfg.seed, &cfg.tier);
     rep.nontrivial_rule = "a sequence is non-trivial when at least 5 user messages succeeded and at least one sector was proven or one reward applied; distinct = distinct hash of the op/result lines".into();
@@ -561,19 +608,22 @@ pub fn run(cfg: &RunCfg, which: Which) -> Report {
         else if cfg.use_lean && which == Which::C03 { Some(LeanDriver::spawn("minerledger").expect("lean driver")) }
         else if cfg.use_lean && which == Which::C05 { Some(LeanDriver::spawn("cron").expect("lean driver")) } else { None };
     let mut seen = HashSet::new();
-    let seqs: Vec<u64> = match cfg.only_seq { Some(k) => vec![k], None => (0..nseq).collect() };
+    let mut seqs: Vec<u64> = match cfg.only_seq { Some(k) => vec![k], None => (0..nseq).collect() };
+    // scripted scenario (C05/C03): sectors left faulty for the whole fault_max_age (42 proving periods)
+    if cfg.only_seq.is_none() && which != Which::C01 { seqs.push(LONG_FAULT_SEQ); }
     for seq in seqs {
         let mut r = seq_rng(cfg.seed, seq);
+        let scripted = seq == LONG_FAULT_SEQ;
         let mut c = Chain::new(6);
         c.set_epoch(r.range(1, 40));
-        let dense = r.chance(1, 4);
-        let with_faults = r.chance(1, 3);
+        let dense = r.chance(1, 4) && !scripted;
+        let with_faults = r.chance(1, 3) && !scripted;
         // F1 (known finding): the creation deposit is never added to the network pledge total, and
         // on a young network that soon makes every miner operation fail.  In 3 of 4 sequences the
         // harness compensates (the new miner reports its locked deposit to the power actor, which
         // is what a repair would do) so that everything else stays observable; the remaining
         // sequences run uncompensated and keep exhibiting the finding.
-        let compensate_f1 = !r.chance(1, 4);
+        let compensate_f1 = !r.chance(1, 4) || scripted;
         let mut cx = Ctx { which, cfg, seq, rep: &mut rep, lines: vec![], stop: false, unaccounted: TokenAmount::zero(), known_seen: HashSet::new(), lean: lean.as_mut(), agree: true, nontrivial: 0, caught_up: vec![], ledger_net: vec![], ledger_unacc: vec![], ledger_synced: vec![], ledger_ops: 0 };
         cx.rep.sequences += 1;
         if which == Which::C03 { if let Some(l) = cx.lean.as_mut() { let _ = l.ask("reset"); } }
@@ -581,9 +631,9 @@ pub fn run(cfg: &RunCfg, which: Which) -> Report {
         // per-miner bookkeeping of the generator
         let mut pending: Vec<Vec<(u64, i64)>> = vec![]; // (sector, precommit epoch)
         let mut proven_any = false;
-        let n_miners = r.range(1, 3) as usize;
+        let n_miners = if scripted { 1 } else { r.range(1, 3) as usize };
         for i in 0..n_miners {
-            let value = match r.below(6) { 0 => fil(0), 1 => fil(5000), _ => fil(100) };
+            let value = if scripted { fil(5000) } else { match r.below(6) { 0 => fil(0), 1 => fil(5000), _ => fil(100) } };
             record_balances(&c);
             let res = exec(&mut c, &mut cx, format!("create_miner owner={} value={}", i, value.atto()), false, true, |c| c.create_miner(i, i, &value));
             if res.ok() {
@@ -605,8 +655,8 @@ pub fn run(cfg: &RunCfg, which: Which) -> Report {
                         cx.ledger_synced[mi] = false;
                     }
                 }
-                let cap = if r.chance(1, 6) { fil(50) } else { fil(r.range(1, 4) * 2500) };
-                let immediate = r.chance(1, 2);
+                let cap = if scripted { fil(5000) } else if r.chance(1, 6) { fil(50) } else { fil(r.range(1, 4) * 2500) };
+                let immediate = r.chance(1, 2) || scripted;
                 record_balances(&c);
                 exec(&mut c, &mut cx, format!("fund miner={} value={}", mi, cap.atto()), false, false, |c| c.send_funds(mi, &cap));
                 if immediate {
@@ -620,7 +670,11 @@ pub fn run(cfg: &RunCfg, which: Which) -> Report {
             }
         }
         if c.miners.is_empty() { continue; }
-        for _step in 0..steps {
+        if scripted {
+            long_fault_script(&mut c, &mut cx, &mut pending);
+            proven_any = true;
+        }
+        for _step in 0..(if scripted { 0 } else { steps }) {
             if cx.stop { break; }
             let mi = r.below(c.miners.len() as u64) as usize;
             let view = c.miner_view(&c.miners[mi].id);
@@ -743,7 +797,7 @@ pub fn run(cfg: &RunCfg, which: Which) -> Report {
             for (i, m) in c.miners.clone().iter().enumerate() {
                 let v = c.miner_view(&m.id);
                 let has_claim = c.power_view().claims.contains_key(&m.id.id().unwrap());
-                if v.exists && has_claim && v.has_early_terminations {
+                if v.exists && has_claim && (v.has_early_terminations || v.n_early_pending > 0) {
                     cx.violation(Which::C05, "early-terminations-never-processed", format!("miner {} still has {} sectors awaiting early-termination processing after two proving periods", i, v.n_early_pending));
                 }
             }
